@@ -887,7 +887,7 @@ def OccOk (oc : OccRec) (so : Occ) : Prop :=
 /-- hypotheses on the tree: attached tables hold local symbols only (what the resolver attaches), and
 no identifier is spelled like the hidden slot-0 variable (the lexer cannot produce it) -/
 def treeOk : Tm → Bool
-  | .nil | .lit _ | .str _ => true
+  | .nil | .lit _ | .str _ | .nilE | .letN _ _ => true
   | .seq a b => treeOk a && treeOk b
   | .var _ x => x != UNINITIALIZED_VAR
   | .assign _ x e => x != UNINITIALIZED_VAR && treeOk e
@@ -1068,6 +1068,9 @@ theorem comp_lam (tbl : Table) (d0 : Nat) (ps : List Param) (body : Tm) :
     comp (.lam tbl d0 ps body) cs = (comp body (cs.enterFunction .fn "lambda" tbl d0 ps)).exitFunction := rfl
 theorem comp_let (d : Nat) (x : Name) (e : Tm) :
     comp (.letS d x e) cs = (comp e (cs.declareVariable d x).1).defineVariable x (cs.declareVariable d x).2 := rfl
+theorem comp_nilE : comp .nilE cs = cs.emit .nil := rfl
+theorem comp_letN (d : Nat) (x : Name) :
+    comp (.letN d x) cs = ((cs.declareVariable d x).1.emit .nil).defineVariable x (cs.declareVariable d x).2 := rfl
 theorem comp_fn (d : Nat) (f : Name) (tbl : Table) (d0 : Nat) (ps : List Param) (body : Tm) :
     comp (.fnS d f tbl d0 ps body) cs =
       ((comp body ((cs.declareVariable d f).1.enterFunction .fn f tbl d0 ps)).exitFunction).defineVariable f (cs.declareVariable d f).2 := rfl
@@ -1088,6 +1091,8 @@ theorem occs_op (k : OpKind) (a : Tm) : occs mod (.op k a) env = occs mod a env 
 theorem occs_lam (tbl : Table) (d0 : Nat) (ps : List Param) (body : Tm) :
     occs mod (.lam tbl d0 ps body) env = (env, (occs mod body (enterFun env .fn d0 ps)).2) := rfl
 theorem occs_let (d : Nat) (x : Name) (e : Tm) : occs mod (.letS d x e) env = occs mod e (declareVar env d x) := rfl
+theorem occs_nilE : occs mod .nilE env = (env, []) := rfl
+theorem occs_letN (d : Nat) (x : Name) : occs mod (.letN d x) env = (declareVar env d x, []) := rfl
 theorem occs_fn (d : Nat) (f : Name) (tbl : Table) (d0 : Nat) (ps : List Param) (body : Tm) :
     occs mod (.fnS d f tbl d0 ps body) env =
       (declareVar env d f, (occs mod body (enterFun (declareVar env d f) .fn d0 ps)).2) := rfl
@@ -1220,8 +1225,9 @@ theorem forPrologue_rel (cs : CS) (dI d : Nat) (x : Name) (env : Env) (h : Rel c
     obtain ⟨_, _, sc, er, _, he, _⟩ := h.ne
     exact deep_of_shape (shape_declare _ _ _) hd (by simp [he])
   rw [declareVar_deep _ _ _ hd2] at h3
-  obtain ⟨h4, s4⟩ := defineVariable_rel _ x (((cs.declareVariable dI ITER_VAR).1.defineVariable ITER_VAR .localInit).declareVariable d x).2 _ h3
-  have s14 := s4.trans (s3.trans (s2.trans s1))
+  obtain ⟨h3n, s3n⟩ := emit_rel _ .nil _ h3
+  obtain ⟨h4, s4⟩ := defineVariable_rel _ x (((cs.declareVariable dI ITER_VAR).1.defineVariable ITER_VAR .localInit).declareVariable d x).2 _ h3n
+  have s14 := s4.trans (s3n.trans (s3.trans (s2.trans s1)))
   unfold CS.forPrologue
   simp only
   split
@@ -1275,6 +1281,18 @@ theorem comp_lex (mt : Table) (hmt : mtOk mt = true) (t : Tm) :
   | nil => intro cs env _ h hm; exact ⟨Step.refl h hm, Shape.refl _⟩
   | lit n => intro cs env _ h hm; exact ⟨Step.refl h hm, Shape.refl _⟩
   | str s => intro cs env _ h hm; exact ⟨Step.refl h hm, Shape.refl _⟩
+  | nilE =>
+    intro cs env _ h hm
+    rw [comp_nilE, occs_nilE]
+    obtain ⟨hr, hs⟩ := emit_rel cs .nil env h
+    exact ⟨(Step.refl h hm).then hr hs, Shape.refl _⟩
+  | letN d x =>
+    intro cs env _ h hm
+    rw [comp_letN, occs_letN]
+    obtain ⟨hr, hs⟩ := declareVariable_rel cs d x env h
+    obtain ⟨hr2, hs2⟩ := emit_rel (cs.declareVariable d x).1 .nil _ hr
+    obtain ⟨hr3, hs3⟩ := defineVariable_rel ((cs.declareVariable d x).1.emit .nil) x (cs.declareVariable d x).2 _ hr2
+    exact ⟨(((Step.refl h hm).then hr hs).then hr2 hs2).then hr3 hs3, shape_declareVar env d x⟩
   | seq a b iha ihb =>
     intro cs env hok h hm
     simp only [treeOk, Bool.and_eq_true] at hok
